@@ -222,7 +222,7 @@ func errS(err error) string {
 }
 
 var codTabs = []string{"a", "a\x00", "ab", "\x00\x01", "\x01", "a;", "b", strings.Repeat("T", 255)}
-var codKeys = []string{"b", "b:c", "b\x00", "\x00\x01", "\x01", "b;", ":", strings.Repeat("k", 8), strings.Repeat("k", 9)}
+var codKeys = []string{"b", "b:c", "b\x00", "\x00\x01", "\x01", "b;", ":", strings.Repeat("k", 8), strings.Repeat("k", 9), "\xff", "\xffk"}
 var codSubs = []string{"", "c", ":", ":c", "\x00", "\x00\x00", "\xff", ";", strings.Repeat("s", 8)}
 
 // collection families: hash / set / zset member keys, zset score keys, list, bitmap.
@@ -483,6 +483,36 @@ func (d *codDrv) indexFamily(name string, number bool, tabs, names, pks []string
 	}
 }
 
+// the data range of a whole table for kv keys (whole-table delete, FULLSCAN): kv keys have no
+// length prefixes, the range is [type table ':' , type table ';') and must hold every key of
+// the table whatever its first byte - and no key of any other table
+func (d *codDrv) kvTableRangeFamily(name string, tabs, keys []string) {
+	d.family(name)
+	tabID := map[string]int{}
+	for i, t := range tabs {
+		data, _, _, err := rockredis.VerifScanTableDeleteRanges(rockredis.KVType, rockredis.KVType, []byte(t))
+		if err != nil || len(data) == 0 {
+			continue
+		}
+		tabID[t] = i + 1
+		d.rng(codRange{id: i + 1, start: data[0].Start, stop: data[0].Limit})
+		// the generic table start / end pair as well
+		s, e := rockredis.VerifScanTableStartEnd(rockredis.KVType, []byte(t))
+		d.rng(codRange{id: 1000 + i + 1, start: s, stop: e})
+	}
+	for _, t := range tabs {
+		for _, k := range keys {
+			raw := t + ":" + k
+			enc, err := rockredis.VerifScanMetaKey(rockredis.KVType, []byte(raw))
+			if err != nil {
+				continue
+			}
+			x := codTuple{codBytes([]byte(raw))}
+			d.key(name, x, enc, x, "", false, []int{tabID[t], 1000 + tabID[t]})
+		}
+	}
+}
+
 func codecord(args []string) error {
 	fs := flag.NewFlagSet("codecord", flag.ExitOnError)
 	outp := fs.String("o", "codec", "output prefix; parts are <prefix>.<i>.ndjson")
@@ -584,6 +614,8 @@ func codecord(args []string) error {
 	for _, dt := range []byte{rockredis.KVType, rockredis.HashType, rockredis.ListType, rockredis.SetType, rockredis.ZSetType} {
 		e.metaFamily(dt, "meta-keys-"+rockredis.TypeName[dt], codTabs, codKeys)
 	}
+	ffKeys := append(append([]string{}, codKeys...), "\xff", "\xffk", "\xff\xff\xffz", "\x00", ";", "\xfe\xff")
+	e.kvTableRangeFamily("table-data-range-kv", codTabs, ffKeys)
 	inames := []string{"f", "f:", "f\x00", "fg", "\x00\x01"}
 	e.indexFamily("hash-index-string-keys", false, small, inames, codKeys[:6])
 	e.indexFamily("hash-index-number-keys", true, small, inames, codKeys[:6])
